@@ -32,6 +32,12 @@ func c05(c *Ctx) {
 	// a packet WriteData fills exactly (payload + adaptation field, including the one-byte adaptation field) is accepted by
 	// writePacket: a fit check that rejects it would withhold a packet whose counter value is already consumed (the
 	// whole-packet joints of C01)
+	// every table emission is a freshly generated packet with a freshly consumed counter value (no stale bytes re-emitted)
+	muxstate.Current(c.P, r)
+	// the PES header WriteData budgets for (calcPESOptionalHeaderLength) is the header writePESHeader emits: otherwise
+	// writePacket rejects the packet after its counter value was consumed
+	lkh := layout.New(c.P)
+	lkh.A2(r, packetPairs(c)[2:])
 	ckj := layout.NewBits(c.P)
 	ckj.A3(r, c01Joints(c))
 	for _, d := range ckj.IP.Diag {
@@ -43,6 +49,10 @@ func c05(c *Ctx) {
 		"a context created anywhere else restarts the continuity counter of a stream that stays added")
 	extrarules.WhoMayMutateMapField(c.P, r, "CC-ctx", "Muxer.esContexts/mutated-by", "Muxer", "esContexts", []string{"(*Muxer).AddElementaryStream"}, []string{"(*Muxer).RemoveElementaryStream"}, 1, 1,
 		"the per-PID counter contexts are inserted by AddElementaryStream and deleted by RemoveElementaryStream only")
+	// "stream additions/removals and failed calls": a refused AddElementaryStream / RemoveElementaryStream must not have
+	// touched the contexts (a duplicate-PID Add that first overwrote the running stream's context restarts its counter)
+	extrarules.NoEffectBeforeError(c.P, r, "CC-ctx", []string{"Muxer.AddElementaryStream", "Muxer.RemoveElementaryStream"},
+		"a refused call that already replaced or removed a counter context makes the stream's continuity counter jump")
 	extrarules.WhoMayStoreField(c.P, r, "CC-ctx", "Muxer.esContexts/stored-by", "Muxer", "esContexts", []string{"NewMuxer"}, 1, nil, "stores",
 		"replacing the context map restarts every stream's continuity counter")
 }
